@@ -36,6 +36,14 @@ ASSUMPTIONS = ['cells are right-handed with volume >= 10% of a*b*c (condition nu
                'oracle shares numpy/LAPACK with the code under test']
 
 SETS = ('vectors', 'abc', 'lengths', 'hilo')
+EPS = float(np.finfo(float).eps)
+
+
+def rounding(v, factor=64.0):
+    """Relative rounding bound of whatever goes through the inverse of the vector matrix (reciprocal vectors, relative
+    coordinates): factor * eps * cond(vects), never looser than the 1e-9 used for everything else.  A stale or
+    approximated inverse is wrong by the size of the change that was missed, however small that change was."""
+    return min(1e-9, factor * EPS * max(float(np.linalg.cond(v)), 1.0))
 FAMILY_CTORS = ('cubic', 'tetragonal', 'orthorhombic', 'hexagonal', 'rhombohedral', 'monoclinic', 'triclinic')
 
 
@@ -168,7 +176,7 @@ def install_monitors(rec, am):
         box = args[0]
         relpos = np.asarray(bound('position_relative_to_cartesian', args, kwargs)['relpos'], float)
         v, o, L = state(box)
-        tol = 1e-9 * (L * (1 + np.abs(relpos).max(initial=0)) + np.abs(o).max())
+        tol = 32 * EPS * (L * (1 + np.abs(relpos).max(initial=0)) + np.abs(o).max())
         rec.close(tol, result, G.cart(relpos, v, o), 'monitor: relative->Cartesian postcondition', 'monitor:rel2cart')
 
     def post_c2r(args, kwargs, result, exc, old):
@@ -179,7 +187,7 @@ def install_monitors(rec, am):
         cartpos = np.asarray(bound('position_cartesian_to_relative', args, kwargs)['cartpos'], float)
         v, o, L = state(box)
         exp = G.rel(cartpos, v, o)
-        tol = 1e-9 * (1 + np.abs(o).max() / L) * (1 + np.abs(exp).max(initial=0))
+        tol = rounding(v) * (1 + np.abs(o).max() / L) * (1 + np.abs(exp).max(initial=0))
         rec.close(tol, result, exp, 'monitor: Cartesian->relative postcondition', 'monitor:cart2rel')
 
     # -- inside / outside --------------------------------------------------------------------------------------------
@@ -426,7 +434,7 @@ def install_monitors(rec, am):
             return
         cached = getattr(box, '_Box__reciprocal_vects', None)
         if cached is not None:
-            rec.close(1e-9, v @ np.asarray(cached).T, np.eye(3),
+            rec.close(rounding(v, 128), v @ np.asarray(cached).T, np.eye(3),
                       'monitor: cached reciprocal vectors are dual to the current vectors', f'monitor:stale-reciprocal:{what}')
 
     def pre_setter(box, value):
@@ -460,7 +468,7 @@ def install_monitors(rec, am):
         v = box.vects
         if in_domain(v):
             rec.count('monitor:reciprocal-getter')
-            rec.close(1e-9, v @ np.asarray(result, float).T, np.eye(3), 'monitor: reciprocal vectors returned are dual to the current vectors',
+            rec.close(rounding(v, 128), v @ np.asarray(result, float).T, np.eye(3), 'monitor: reciprocal vectors returned are dual to the current vectors',
                       'monitor:reciprocal:dual')
 
     def post_planes_getter(box, result):
@@ -559,12 +567,21 @@ def check_getters(rec, box, key='getters'):
     v, o = box.vects, box.origin
     L = np.linalg.norm(v, axis=1).max()
     a, b, c, al, be, ga = G.lengths_angles(v)
-    rec.close(1e-10 * L, [box.a, box.b, box.c], [a, b, c], 'a,b,c are the vector lengths', key + ':abc')
-    rec.close(1e-6, [box.alpha, box.beta, box.gamma], [al, be, ga], 'alpha,beta,gamma are the vector angles', key + ':angles')
-    rec.close(1e-9 * L ** 3, box.volume, abs(G.volume(v)), 'volume is the triple product', key + ':volume')
+    # bounds of the arithmetic itself (a few roundings), so that a value belonging to a cell that differs from the
+    # current one by a relative 1e-10 is seen: sqrt of a sum of squares; arccos of a cosine good to a few eps (error
+    # eps/sin(angle)); a sum of six triple products each at most a*b*c
+    smin = min(np.sin(np.radians(x)) for x in (al, be, ga))
+    rec.close(8 * EPS * L, [box.a, box.b, box.c], [a, b, c], 'a,b,c are the vector lengths', key + ':abc')
+    rec.close(min(1e-6, 64 * EPS * 57.3 / max(smin, 1e-3)), [box.alpha, box.beta, box.gamma], [al, be, ga],
+              'alpha,beta,gamma are the vector angles', key + ':angles')
+    rec.close(32 * EPS * a * b * c, box.volume, abs(G.volume(v)), 'volume is the triple product', key + ':volume')
     rec.close(0.0, [box.avect, box.bvect, box.cvect], v, 'avect,bvect,cvect are the rows of vects', key + ':abcvect')
     r = box.reciprocal_vects
-    rec.close(1e-9, v @ np.asarray(r).T, np.eye(3), 'reciprocal vectors are dual to the cell vectors', key + ':dual')
+    rec.close(rounding(v, 128), v @ np.asarray(r).T, np.eye(3), 'reciprocal vectors are dual to the cell vectors', key + ':dual')
+    rec.close(rounding(v, 128) * np.abs(F.reciprocal(v)).max(), r, F.reciprocal(v), 'reciprocal vectors are the rows of the inverse transpose (linear solve)',
+              key + ':reciprocal')
+    rec.check(bool(box.is_lammps_norm()) == G.is_lammps_form(v, 0.0), 'is_lammps_norm() says whether the vectors are in LAMMPS-compatible orientation',
+              key + ':is_lammps_norm', vects=v)
     if G.is_lammps_form(v, 0.0):
         got = [box.lx, box.ly, box.lz, box.xy, box.xz, box.yz]
         rec.close(1e-12 * L, got, [v[0, 0], v[1, 1], v[2, 2], v[1, 0], v[2, 0], v[2, 1]], 'lx..yz are the vector components', key + ':lengths')
@@ -661,8 +678,11 @@ def check_points(rec, box, rng, shape_class, form, twin=None, results=None):
     rec.count('points-form:' + form)
     rec.count('points-shape:' + shape_class)
     rmax = max(np.abs(rel_t).max(initial=0), np.abs(G.rel(cart_t, v, o)).max(initial=0)) if cart_t.size else 0.0
-    tolc = 1e-9 * (L * (1 + rmax) + np.abs(o).max())
-    tolr = 1e-9 * osc * (1 + rmax)
+    rnd = rounding(v)
+    tolc_old, tolr_old = 1e-9 * (L * (1 + rmax) + np.abs(o).max()), 1e-9 * osc * (1 + rmax)
+    tolc = 32 * EPS * (L * (1 + rmax) + np.abs(o).max())         # three products and three sums
+    tolci = rnd * (L * (1 + rmax) + np.abs(o).max())              # ... of relative coordinates that went through the inverse
+    tolr = rnd * osc * (1 + rmax)
     out = {}
     # relative -> Cartesian -> relative
     cart = None
@@ -692,7 +712,7 @@ def check_points(rec, box, rng, shape_class, form, twin=None, results=None):
         rec.close(tolr, relb, G.rel(cart_t, v, o), 'Cartesian->relative equals the linear solve', 'cart2rel:solve:' + key, cart=cart_t, vects=v, origin=o)
         try:
             fwd = box.position_relative_to_cartesian(relb)
-            rec.close(2 * tolc, fwd, cart_t, 'relative->Cartesian inverts Cartesian->relative', 'rel2cart:inverse:' + key, cart=cart_t, vects=v, origin=o)
+            rec.close(2 * tolci, fwd, cart_t, 'relative->Cartesian inverts Cartesian->relative', 'rel2cart:inverse:' + key, cart=cart_t, vects=v, origin=o)
         except Exception as e:
             rec.fail('relative->Cartesian accepts the output of Cartesian->relative', 'rel2cart:exception:' + key, exception=e)
     # inside / outside
@@ -758,7 +778,7 @@ def check_points(rec, box, rng, shape_class, form, twin=None, results=None):
                     rec.check(ok.all(), 'a Box with a history answers inside/outside like a freshly built Box of the same cell',
                               f'twin:{k}', rel=relo[~ok][:3], vects=v, origin=o)
             else:
-                rec.close(1e-3 * (tolc if k == 'r2c' else tolr), out[k], tv,
+                rec.close(1e-3 * (tolc_old if k == 'r2c' else tolr_old), out[k], tv,
                           'a Box with a history converts positions like a freshly built Box of the same cell', f'twin:{k}')
     if results is not None:
         results.extend(x for x in out.values() if isinstance(x, np.ndarray) and x.dtype != bool)
@@ -811,7 +831,12 @@ SCALAR_OPS = tuple(c for c in CHANGES if c.startswith(('set_abc', 'set(a..)', 's
 READS = ['state', 'getters', 'planes', 'points', 'points2', 'twin-getters', 'exact-faces']
 
 
-def history_cell(rng, op, aform, sform, origin_class, scale):
+def history_cell(rng, op, aform, sform, origin_class, scale, structured=None):
+    """``structured`` = (pattern, sub, row permutation, column permutation) or None: for the changes that take vectors
+    the target is then a cell with that zero pattern."""
+    if structured is not None and op in ROTATED_OK and op not in ('set_abc', 'set_abc-noorigin', 'set(a..)'):
+        return C.gen_structured_cell(rng, *structured, origin={'huge': 'far'}.get(origin_class, origin_class) if aform in C.INT_FORMS else origin_class,
+                                     scale=scale, integer=aform in C.INT_FORMS)
     need_int = aform in C.INT_FORMS or (op in SCALAR_OPS and sform == 'int')
     if op == 'vects=:partial':
         return dict(kind='current', vects=None, origin=None, L=None)
@@ -1007,6 +1032,56 @@ class _guard:
         return True
 
 
+def cell_clauses(ctx, am, cell, i, kind, oc):
+    """Every clause of the property on one cell: every ordered pair of parameter sets, getters, planes, family
+    constructor, points in three shapes/forms, exact face points."""
+    rec, rng = ctx.rec, ctx.rng
+    v, o, L = cell['vects'], cell['origin'], cell['L']
+    sets = SETS if cell['lammps'] else ('vectors', 'abc')
+    # every ordered pair of parameter sets: build from A (ground truth), read through B, rebuild
+    for A in sets:
+        boxA = None
+        with ctx.guard(f'Box can be built from the {A} parameter set', f'build:{A}'):
+            boxA = build(am, A, truth_set(cell, A))
+        if boxA is None:
+            continue
+        rec.count('monitor:Box-built')
+        exact = cell['lammps'] or A != 'abc'      # abc input of a rotated cell gives its LAMMPS orientation
+        check_box_against(rec, boxA, v, o, exact, L, f'build({A})', kind=kind)
+        check_getters(rec, boxA, f'getters:{A}')
+        check_planes(rec, boxA, f'planes:{A}')
+        setsB = SETS if G.is_lammps_form(boxA.vects, 0.0) else ('vectors', 'abc')
+        for B in setsB:
+            boxB = None
+            with ctx.guard(f'reading {B} from a box built with {A} and rebuilding', f'pair:{A}->{B}'):
+                vals = read_set(boxA, B)
+                boxB = build(am, B, vals)
+            if boxB is None:
+                continue
+            rec.count('pairs')
+            same_orient = G.is_lammps_form(boxA.vects, 0.0) or B == 'vectors'
+            check_box_against(rec, boxB, boxA.vects, boxA.origin, same_orient, L, f'{A}->{B}', kind=kind)
+    # the crystal-family constructors (lengths and angles with the family's fixed angles), then the origin alone
+    if kind in FAMILY_CTORS and cell['params'] is not None:
+        boxF = None
+        with ctx.guard(f'Box.{kind}(...) builds the family cell', f'build:family:{kind}'):
+            ctor = getattr(am.Box, 'trigonal' if kind == 'rhombohedral' else kind)
+            boxF = ctor(**family_args(kind, cell['params']))
+            boxF.origin = o.copy()
+        if boxF is not None:
+            rec.count('family-constructors')
+            check_box_against(rec, boxF, v, o, True, L, f'build(family:{kind})')
+            check_getters(rec, boxF, 'getters:family')
+    # points on the vectors-built box: leading shape and argument form are functions of the case index
+    box = build(am, 'vectors', truth_set(cell, 'vectors'))
+    for j in range(3):
+        shape_class = C.SHAPES[(2 * i + j) % len(C.SHAPES)] if j else ('N', 'MN', 'single')[i % 3]
+        form = C.ARRAY_FORMS[(i // 3 + 4 * j) % len(C.ARRAY_FORMS)]
+        check_points(rec, box, rng, shape_class, form)
+    if check_exact_faces(rec, box):
+        rec.count(f'faces-exact:origin:{oc}')
+
+
 # =====================================================================================================================
 # workload
 # =====================================================================================================================
@@ -1027,49 +1102,7 @@ def run(ctx):
         rec.count(f'cells:origin:{oc}')
         if i < 27:
             rec.sample(dict(kind=kind, vects=v, origin=o))
-        sets = SETS if cell['lammps'] else ('vectors', 'abc')
-        # every ordered pair of parameter sets: build from A (ground truth), read through B, rebuild
-        for A in sets:
-            boxA = None
-            with ctx.guard(f'Box can be built from the {A} parameter set', f'build:{A}'):
-                boxA = build(am, A, truth_set(cell, A))
-            if boxA is None:
-                continue
-            rec.count('monitor:Box-built')
-            exact = cell['lammps'] or A != 'abc'      # abc input of a rotated cell gives its LAMMPS orientation
-            check_box_against(rec, boxA, v, o, exact, L, f'build({A})', kind=kind)
-            check_getters(rec, boxA, f'getters:{A}')
-            check_planes(rec, boxA, f'planes:{A}')
-            setsB = SETS if G.is_lammps_form(boxA.vects, 0.0) else ('vectors', 'abc')
-            for B in setsB:
-                boxB = None
-                with ctx.guard(f'reading {B} from a box built with {A} and rebuilding', f'pair:{A}->{B}'):
-                    vals = read_set(boxA, B)
-                    boxB = build(am, B, vals)
-                if boxB is None:
-                    continue
-                rec.count('pairs')
-                same_orient = G.is_lammps_form(boxA.vects, 0.0) or B == 'vectors'
-                check_box_against(rec, boxB, boxA.vects, boxA.origin, same_orient, L, f'{A}->{B}', kind=kind)
-        # the crystal-family constructors (lengths and angles with the family's fixed angles), then the origin alone
-        if kind in FAMILY_CTORS and cell['params'] is not None:
-            boxF = None
-            with ctx.guard(f'Box.{kind}(...) builds the family cell', f'build:family:{kind}'):
-                ctor = getattr(am.Box, 'trigonal' if kind == 'rhombohedral' else kind)
-                boxF = ctor(**family_args(kind, cell['params']))
-                boxF.origin = o.copy()
-            if boxF is not None:
-                rec.count('family-constructors')
-                check_box_against(rec, boxF, v, o, True, L, f'build(family:{kind})')
-                check_getters(rec, boxF, 'getters:family')
-        # points on the vectors-built box: leading shape and argument form are functions of the case index
-        box = build(am, 'vectors', truth_set(cell, 'vectors'))
-        for j in range(3):
-            shape_class = C.SHAPES[(2 * i + j) % len(C.SHAPES)] if j else ('N', 'MN', 'single')[i % 3]
-            form = C.ARRAY_FORMS[(i // 3 + 4 * j) % len(C.ARRAY_FORMS)]
-            check_points(rec, box, rng, shape_class, form)
-        if check_exact_faces(rec, box):
-            rec.count(f'faces-exact:origin:{oc}')
+        cell_clauses(ctx, am, cell, i, kind, oc)
 
     # ---- forms: one and the same cell handed over in every array form / scalar form --------------------------------
     n_forms = ctx.pick(132, 1320)
@@ -1166,7 +1199,13 @@ def run(ctx):
             sform = C.SCALAR_FORMS[(i // 2 + step) % len(C.SCALAR_FORMS)]
             oc = C.ORIGINS[(i // 4 + step) % len(C.ORIGINS)]
             scale = C.SCALES[(i + step) % len(C.SCALES)]
-            cell = history_cell(rng, op, aform, sform, oc, scale)
+            structured = None
+            if (i + 2 * step) % 3 == 0:
+                h = i * 8 + step
+                structured = (C.PATTERNS[h % len(C.PATTERNS)], h % 9, (h // 2) % 6 if h % 2 else 0, (h // 12) % 6 if h % 2 else 0)
+            cell = history_cell(rng, op, aform, sform, oc, scale, structured)
+            if cell['kind'].startswith('struct:'):
+                rec.count('history:structured-target')
             ops.append((op, cell['kind'], aform if op not in SCALAR_OPS else sform))
             rec.count('history:change:' + op)
             if op in ORIGIN_ONLY:
@@ -1202,6 +1241,162 @@ def run(ctx):
         rec.case(('history', nops, tuple(o_[0] for o_ in ops)), nontrivial=True, fp=fingerprint(ops, i, ctx.seed))
         if i < 16:
             rec.sample(dict(ops=ops))
+
+
+    # ---- structured: exact zeros in chosen places of the vector matrix, every arrangement, every clause ---------------
+    n_struct = ctx.pick(264, 2640)
+    for i in ctx.cases('structured', n_struct):
+        rng = ctx.rng
+        pattern, sub, rowp, colp, oc, scale = C.structured_class(i)
+        aform = C.ARRAY_FORMS[(i // 2) % len(C.ARRAY_FORMS)]
+        integer = aform in C.INT_FORMS
+        cell = C.gen_structured_cell(rng, pattern, sub, rowp, colp, 'far' if integer and oc == 'huge' else oc, scale, integer=integer)
+        v, o, L = cell['vects'], cell['origin'], cell['L']
+        layout = C.zero_layout(v)
+        rec.case(('structured', pattern, rowp, colp, oc), nontrivial=True, fp=fingerprint(v, o, aform))
+        rec.count('struct:pattern:' + pattern)
+        rec.count(f'struct:rowperm:{rowp}')
+        rec.count(f'struct:colperm:{colp}')
+        rec.count(f'struct:arrangement:{rowp}{colp}')
+        rec.count('struct:origin:' + cell['origin_class'])
+        rec.count('struct:lammps' if cell['lammps'] else 'struct:not-lammps')
+        for lab in layout:
+            rec.count('struct:layout:' + lab)
+        if i < 22:
+            rec.sample(dict(kind=cell['kind'], rowperm=C.PERMS[rowp], colperm=C.PERMS[colp], vects=v, origin=o))
+        # (a) all clauses on the cell as on any other cell
+        cell_clauses(ctx, am, cell, i, cell['kind'], oc)
+        # (b) handed over as one matrix in an array form; (c) put onto a Box that has been used with another cell
+        other = C.gen_cell(rng, C.KINDS[i % len(C.KINDS)], C.ORIGINS[(i // 3) % 3], scale)
+        for way in ('Box(vects)', 'used-box'):
+            va, oa = C.as_form(v, aform), C.as_form(o, aform)
+            ev, eo = C.value_of(va), C.value_of(oa)
+            box = None
+            with ctx.guard(f'a cell with exact zeros among its components can be given ({way})', f'struct:build:{way}'):
+                if way == 'Box(vects)':
+                    box = am.Box(vects=va, origin=oa)
+                else:
+                    box = am.Box(vects=other['vects'], origin=other['origin'])
+                    check_getters(rec, box, 'struct:used-box:before')
+                    check_points(rec, box, rng, 'one', 'f64')
+                    route = i % 4
+                    rec.count(f'struct:used-box:route:{route}')
+                    if route == 0:
+                        box.vects = va
+                        box.origin = oa
+                    elif route == 1:
+                        box.set(vects=va, origin=oa)
+                    elif route == 2:
+                        box.set_vectors(avect=va[0], bvect=va[1], cvect=va[2], origin=oa)
+                    else:
+                        box.origin = oa
+                        box.vects = va
+            if box is None:
+                continue
+            bv, bo = judge_state(rec, box, ev, eo, 4 * EPS, 0.0, f'struct:{way}', pattern=pattern)
+            check_getters(rec, box, f'struct:{way}:getters')
+            check_planes(rec, box, f'struct:{way}:planes')
+            twin = am.Box(vects=bv, origin=bo) if way == 'used-box' else None
+            check_points(rec, box, rng, C.SHAPES[(i + (way == 'used-box')) % len(C.SHAPES)], C.ARRAY_FORMS[(i // 3) % len(C.ARRAY_FORMS)], twin=twin)
+            if twin is not None:
+                check_twin_getters(rec, box, twin)
+            check_exact_faces(rec, box, f'struct:{way}:faces-exact')
+            # the same material points have the same relative coordinates in the LAMMPS-oriented rebuild of the cell
+            with ctx.guard('a cell with exact zeros can be rebuilt from its lengths and angles', f'struct:{way}:rebuild-abc'):
+                lmp = am.Box(a=box.a, b=box.b, c=box.c, alpha=box.alpha, beta=box.beta, gamma=box.gamma)
+                rel = C.gen_rel_points(rng, 'N')
+                r1 = box.position_cartesian_to_relative(box.position_relative_to_cartesian(rel))
+                r2 = lmp.position_cartesian_to_relative(lmp.position_relative_to_cartesian(rel))
+                tol = (rounding(bv) * (1 + np.abs(bo).max() / L) + rounding(lmp.vects)) * (1 + np.abs(rel).max())
+                rec.count('struct:rebuild-abc')
+                rec.close(tol, r1, rel, 'Cartesian->relative inverts relative->Cartesian', f'struct:{way}:roundtrip', vects=bv, origin=bo)
+                rec.close(tol, r2, r1, 'relative coordinates of the same points agree with those in the rebuild from lengths and angles',
+                          f'struct:{way}:rebuild-abc:rel', vects=bv)
+                rec.close(1e-8 * L * L, lmp.vects @ lmp.vects.T, bv @ bv.T, 'the rebuild from lengths and angles is the same cell up to a rotation',
+                          f'struct:{way}:rebuild-abc:gram', vects=bv)
+
+    # ---- strains: successive SMALL changes of the cell of ONE Box (1e-12 .. 1e-1 relative), judged at rounding level -
+    n_strain = ctx.pick(168, 1680)
+    nK, nM = len(C.SMALL_CHANGES), len(C.MAGS)
+    s_ops = [c for c in CHANGES if c not in ORIGIN_ONLY and c not in NEEDS_ORTHO and c not in ('set()', 'vects=:partial')]
+    s_forms = ['f64', 'list', 'f64-view', 'tuple', 'f64-F', 'f64-ro']
+    NSTEP = 6
+    for i in ctx.cases('strains', n_strain):
+        rng = ctx.rng
+        oc = C.ORIGINS[i % 4]
+        scale = C.SCALES[(i // 4) % 4]
+        if i % 3 == 2:
+            pattern, sub, rowp, colp, _, _ = C.structured_class(i // 3)
+            cell = C.gen_structured_cell(rng, pattern, sub, rowp, colp, oc, scale)
+        else:
+            cell = C.gen_cell(rng, C.KINDS[(i - i // 3) % len(C.KINDS)], oc, scale)
+        rec.count('strain:start:' + ('structured' if i % 3 == 2 else cell['kind']))
+        box = None
+        with ctx.guard('Box can be built from its vectors', 'strain:build'):
+            box = am.Box(vects=cell['vects'], origin=cell['origin'])
+        if box is None:
+            continue
+        cur_v, cur_o = box.vects, box.origin
+        used = False
+        if i % 4 != 3:                      # the object has been used (conversions, reciprocal vectors) before the first change
+            exp0 = dict(exp_v=cur_v, exp_o=cur_o, tol_rel=4 * EPS, tol_abs=0.0, op='Box(vects)', bv=cur_v, bo=cur_o)
+            full_read(rec, am, box, rng, exp0, i, -1, which=['getters', 'points'], twin_checks=False)
+            used = True
+        trail = []
+        for step in range(NSTEP):
+            sidx = i * NSTEP + step
+            ckind = C.SMALL_CHANGES[sidx % nK]
+            mag = C.MAGS[(sidx // nK + 5 * (sidx % nK)) % nM]
+            lam = G.is_lammps_form(cur_v, 0.0)
+            new_v, mag_used, filled, kept = C.gen_small_change(rng, cur_v, ckind, mag)
+            lam_new = G.is_lammps_form(new_v, 0.0)
+            ops_ok = s_ops if lam_new else [c for c in s_ops if c in ROTATED_OK]
+            op = ops_ok[(sidx + sidx // nK + sidx // (nK * nM)) % len(ops_ok)]
+            aform = s_forms[(i + step) % len(s_forms)]
+            sform = ('float', 'np.float64')[(i + step) % 2]
+            # the origin stays where it is (the changes that take no origin put it to zero; set_hi_los re-derives it)
+            ncell = dict(kind='strained', vects=new_v, origin=cur_o.copy(), L=np.linalg.norm(new_v, axis=1).max(), lammps=lam_new)
+            trail.append((op, ckind, mag))
+            if __import__("os").environ.get("C01DBG"): print("DBG", i, step, op, ckind, mag, mag_used, cur_v.tolist(), new_v.tolist(), cur_o.tolist(), file=open("/tmp/C01/dbg.txt","a"))
+            rec.count('strain:change:' + ckind)
+            rec.count(f'strain:size:{mag:g}')
+            rec.count('strain:route:' + op)
+            rec.count('strain:keeps-zeros' if kept else 'strain:fills-zeros')
+            if kept and np.any(cur_v == 0.0):
+                rec.count('strain:keeps-zeros:cell-with-zeros')
+            if mag_used != mag:
+                rec.count('strain:size-raised-clear-of-zero-flush')
+            if mag_used <= 1e-5:
+                rec.count('strain:le-1e-5:' + ('after-use' if used else 'unused'))
+            if mag_used <= 1e-8:
+                rec.count('strain:le-1e-8:' + ('after-use' if used else 'unused'))
+            mode = 'full' if step == NSTEP - 1 else ('full', 'subset', 'full', 'none', 'full')[(i + step) % 5]
+            with ctx.guard(f'small change of the cell through {op}', f'strain:{op}'):
+                res = apply_change(box, op, ncell, cur_v, cur_o, aform, sform, rng)
+                for a_ in res['args']:
+                    scribble(a_)
+                # bound of the step: the values handed over are stored as they are (vectors, lengths and tilts); lo/hi
+                # carries one subtraction; lengths and angles go through the trigonometry
+                if op.startswith(('set_abc', 'set(a..)')):
+                    tol_rel, tol_abs = 2e-9, 0.0           # components below 1e-9 of the largest are flushed to zero (documented)
+                elif op.startswith(('set_hi_los', 'set(xlo..)')):
+                    tol_rel, tol_abs = 4 * EPS, res['tol_abs']
+                else:
+                    tol_rel, tol_abs = 4 * EPS, 0.0
+                exp = dict(res, op=op, tol_rel=tol_rel, tol_abs=tol_abs)
+                bv, bo = judge_state(rec, box, res['exp_v'], res['exp_o'], tol_rel, tol_abs, f'strain:{op}', change=ckind, size=mag_used, trail=trail)
+                exp.update(bv=bv, bo=bo, exp_v=res['exp_v'], exp_o=res['exp_o'])
+                cur_v, cur_o = bv.copy(), bo.copy()
+                rec.count('strain:steps')
+                if mode == 'none':
+                    used = False
+                    continue
+                which = ['state', 'getters', 'points', 'twin-getters', 'planes'] if mode == 'full' else ['getters', 'points']
+                full_read(rec, am, box, rng, exp, i, step, which=which)
+                used = True
+        rec.case(('strain', cell['kind'], oc), nontrivial=True, fp=fingerprint(cell['vects'], cell['origin'], trail))
+        if i < 12:
+            rec.sample(dict(start=cell['kind'], trail=trail))
 
     for k, v_ in monitor.calls.items():
         if isinstance(v_, int):
